@@ -145,7 +145,15 @@ fn check_list(rep: &mut Report, s: &Singles, hays: &[String], members: &[usize],
         let want = members.iter().any(|i| s.want[*i].get(hi));
         let engine_or = members.iter().any(|i| s.got[*i].get(hi));
         let m = to_yaml_map(&doc(h));
-        let got = eng::matches(&rule, &m).unwrap_or(!want);
+        let got = match eng::matches(&rule, &m) {
+            Ok(g) => g,
+            Err(p) => {
+                // a panic is its own finding (signature = the panic site), not a wrong verdict
+                let names: Vec<&str> = members.iter().map(|i| s.pats[*i].as_str()).collect();
+                rep.violation("panic", &format!("c07-panic:{}", p.site), &format!("list {:?} on {:?}: matches() panicked at {}", names, h, p.sig()), mon::case(&text, &doc(h), None, json!("no-panic"), json!(p.sig()), json!({"members": names})));
+                return;
+            }
+        };
         rep.evaluations += 1;
         let deciding = members.iter().filter(|i| s.want[**i].get(hi)).count();
         if deciding == 1 || classes.len() >= 2 {
